@@ -18,7 +18,7 @@ import os
 from fractions import Fraction
 
 import geom
-from common import CORPUS_DIR, call, frac
+from common import CORPUS_DIR, call, frac, rat
 
 RULE = ("400 (quick) / 8 x 840 (thorough) histories after the corpus, each of 3..14 operations (add / remove / assign with all or some obstacle ids and all or some time steps / "
         "re-open through an XML or protobuf file with lanelet_assignment=True) over 1..5 obstacles (static, dynamic with a "
@@ -41,6 +41,12 @@ ASSUMPTIONS = [
     "a dynamic obstacle with a SetBasedPrediction is outside the property's quantifier: its recorded sets are not judged and an "
     "assignment that addresses it (AttributeError by construction) is inadmissible; model and implementation are compared on it, "
     "and the registries (which must not list it) are judged",
+    "after assign(use_center_only=True) the registries list the centre lanelets (documented purpose of the flag, outside the "
+    "property's sentence about the shape assignment; C07_witness_center_only): the exact-inverse oracle is replaced by 'every "
+    "recorded shape triple is registered and no lanelet lists an obstacle that is not in the scenario' until the next file read, "
+    "which restores the exact inverse (C07_reopen_restores)",
+    "the composed model (driver op geo) is compared with the library's lookups only on (obstacle, time step) pairs whose answer "
+    "does not depend on float rounding: no lanelet in an ambiguity band, no angle addition, no polygon rotation",
     "histories keep the lanelet network fixed; use_center_only=True and inadmissible arguments (unknown ids, time steps before "
     "the initial one, re-adding a contained obstacle) are compared with the model but not judged by the oracle",
 ]
@@ -48,7 +54,7 @@ TRUSTED = ["shapely/GEOS predicates are not modelled; their answers enter the mo
 # composition with C06's index model: Env.cen / Env.shp := find_lanelet_by_position / find_lanelet_by_shape on a built network;
 # the geometric sentence with only the primitive predicates within / meets left as parameters (built + audited every run)
 EXTRA_MODULES = ["CRProps.C07b"]
-REQUIRED_BUCKETS = ["entry/assign", "entry/reopen-xml", "entry/reopen-pb", "kind/static", "kind/traj", "kind/none", "kind/set",
+REQUIRED_BUCKETS = ["entry/assign", "entry/reopen-xml", "entry/reopen-pb", "kind/static", "kind/traj", "kind/none", "kind/set", "geo/composed-compared",
                     "shape/rect", "shape/rect-rotated", "shape/circ", "shape/poly", "shape/group",
                     "geo/shape-beyond-center", "geo/touching", "geo/off-road", "geo/multi-lanelet-center",
                     "op/remove-after-assign", "op/readd", "op/partial-assign", "op/center-only", "op/error"]
@@ -634,6 +640,37 @@ def judge(w, op, opname, inside, shape_mode, st, sub):
                                  f"the occupancy intersects {sorted(sm)}" + (f" (ambiguous {sorted(sq)})" if sq else ""), sub)
     # (2) registries are exactly the inverse of the shape assignment
     if not shape_mode:
+        # after assign(use_center_only=True) the registries list the centre lanelets by the documented purpose of the flag; what
+        # must still hold (C07_superset_run): every recorded shape triple of an obstacle of the scenario is registered, and no
+        # lanelet lists an obstacle that is not in the scenario
+        for l, reg in st["sreg"].items():
+            for i in st["statics"]:
+                if int(l) in (st["fwd"][str(i)]["is"] or []) and i not in reg and w.first(("ws", l, i)):
+                    fail(ctx, f"C07/{opname}/registry-misses-recorded/static",
+                         f"after {op}: static obstacle {i} records shape lanelet {l} but lanelet {l} lists {reg}", sub)
+            for i in reg:
+                if i not in st["statics"] and w.first(("stale-s", l, i)):
+                    fail(ctx, f"C07/{opname}/registry-lists-removed-obstacle/center-only",
+                         f"after {op} (following a centre-only assignment): lanelet {l} lists static obstacle {i}, which is not in "
+                         f"the scenario {st['statics']}", sub)
+        for l, reg in st["dreg"].items():
+            for i in st["dynamics"]:
+                f, o = st["fwd"][str(i)], w.spec[i]
+                rec = {str(o["t0"]): set(f["is"] or [])}
+                if o["kind"] == "traj" and f["ps"] is not None:
+                    for t, ids in f["ps"].items():
+                        rec.setdefault(t, set()).update(ids)
+                for t, ids in rec.items():
+                    if int(l) in ids and i not in reg.get(t, []) and w.first(("wd", l, t, i)):
+                        fail(ctx, f"C07/{opname}/registry-misses-recorded/dynamic",
+                             f"after {op}: dynamic obstacle {i} records shape lanelet {l} at time step {t} but lanelet {l} lists "
+                             f"{reg.get(t)}", sub)
+            for t, ids in reg.items():
+                for i in ids:
+                    if i not in st["dynamics"] and w.first(("stale-d", l, t, i)):
+                        fail(ctx, f"C07/{opname}/registry-lists-removed-obstacle/center-only",
+                             f"after {op} (following a centre-only assignment): lanelet {l} lists dynamic obstacle {i} at time step "
+                             f"{t}, which is not in the scenario {st['dynamics']}", sub)
         return
     if sorted(inside) != sorted(st["statics"] + st["dynamics"]):
         fail(ctx, f"C07/{opname}/scenario-content", f"after {op}: scenario holds {st['statics']} + {st['dynamics']}, expected {sorted(inside)}", sub)
@@ -675,6 +712,8 @@ def run_case(ctx, case, tags=True):
     look = call(w.lookups)
     inside, shape_mode, assigned = set(), True, False
     impl = []
+    if look[0] == "ok":
+        geo_compare(ctx, w, case, look[1], tags)
     for k, op in enumerate(ops):
         sub = dict(case, ops=ops[:k + 1])
         ok = admissible(op, w.spec, inside)
@@ -711,6 +750,7 @@ def run_case(ctx, case, tags=True):
                         ctx.tag("op/partial-assign")
         elif op[0] == "reopen":
             assigned = True
+            shape_mode = True        # the registries are rebuilt from the shape sets (C07_reopen_restores)
             if tags:
                 ctx.tag("entry/reopen-" + op[1])
             # the geometry must have survived the file exactly, else the model's parameters are stale: stop the history here
@@ -739,6 +779,75 @@ def run_case(ctx, case, tags=True):
             "ops": ops, "tmin": min(ts), "tspan": max(ts) - min(ts)}
     model = ctx.driver.ask("C07", "run", args)
     ctx.compare(dict(case, ops=ops), impl, model, "Scenario add/assign/remove/open history vs CR.Assign.run")
+
+
+def _rspec(spec):
+    """shape spec with exact rationals (driver format)"""
+    k = spec["k"]
+    if k == "rect":
+        return {"k": "rect", "l": rat(spec["l"]), "w": rat(spec["w"]), "c": [rat(spec["c"][0]), rat(spec["c"][1])], "o": rat(spec["o"])}
+    if k == "circ":
+        return {"k": "circ", "r": rat(spec["r"]), "c": [rat(spec["c"][0]), rat(spec["c"][1])]}
+    if k == "poly":
+        return {"k": "poly", "v": [[rat(x), rat(y)] for x, y in spec["v"]]}
+    return {"k": "group", "s": [_rspec(x) for x in spec["s"]]}
+
+
+def _angles(spec, a):
+    """angles whose cos / sin the placement needs, or None when float rounding would enter (the composed model adds angles and
+    rotates polygons exactly; the library does both in floats)"""
+    k = spec["k"]
+    if k == "rect":
+        if spec["o"] != 0 and a != 0:
+            return None
+        return [float(spec["o"]) + float(a)]
+    if k == "circ":
+        return []
+    if k == "poly":
+        return [] if a == 0 else None
+    out = []
+    for x in spec["s"]:
+        r = _angles(x, a)
+        if r is None:
+            return None
+        out += r
+    return out
+
+
+def geo_compare(ctx, w, case, look, tags):
+    """end-to-end correspondence of the COMPOSED model (CRModel/AssignGeo.lean: index scan + C06's exact predicates with the r/2
+    circle + C04's placement): its lookups vs the library's, on every (obstacle, time step) whose answer does not hinge on float
+    rounding or on GEOS's 64-gon (no lanelet in an ambiguity band of the oracle)"""
+    from commonroad import TWO_PI
+    steps, want, trig = [], [], {0.0: (1.0, 0.0)}
+    for o in case["obstacles"]:
+        if o["kind"] == "set":
+            continue
+        rows = {r[0]: r for r in look[o["id"]]}
+        for t in horizon(o):
+            st = o if t == o["t0"] else o["traj"][t - o["t0"] - 1]
+            a = float(st["o"])
+            angs = _angles(o["shape"], a)
+            if angs is None:
+                continue
+            r = call(w.brute, o["id"], t)
+            if r[0] != "ok":
+                continue
+            cm, cq, sm, sq, half = r[1]
+            if cq or sq or (half is not None and half[1]):
+                continue
+            for x in angs + [a]:
+                trig[x] = (math.cos(x), math.sin(x)) if x != 0 else (1.0, 0.0)
+            steps.append({"o": o["id"], "t": t, "shape": _rspec(o["shape"]), "pos": [rat(st["pos"][0]), rat(st["pos"][1])], "ori": rat(a)})
+            want.append([o["id"], t, rows[t][1], rows[t][2]])
+    if not steps:
+        return
+    args = {"lanelets": [{"id": l["id"], "ring": [[rat(x), rat(y)] for x, y in (l["right"] + l["left"][::-1])]} for l in case["lanelets"]],
+            "steps": steps, "trig": [[rat(a), rat(c), rat(s)] for a, (c, s) in trig.items()], "tol": rat(1e-15), "tau": rat(TWO_PI)}
+    model = ctx.driver.ask("C07", "geo", args)
+    if tags:
+        ctx.tag("geo/composed-compared")
+    ctx.compare(dict(case, ops=[]), want, model, "find_lanelet_by_position / find_lanelet_by_shape on the occupancies vs CR.Assign.envOf (exactGeo …)")
 
 
 def tag_case(ctx, w, case):
